@@ -286,3 +286,45 @@ impl AsyncRead for Mock {
         Poll::Pending
     }
 }
+
+/// C12.write / C01.write: conservation at `Encoder::buffer` for DATA around the chain
+/// threshold.  For a *symbolic* threshold T (10..=16) and payload length (0..=16): what
+/// is pending after `buffer` (write buffer + the chained remainder) is exactly
+/// 9 + len bytes, and `is_empty()` says so - otherwise `flush` would skip the frame
+/// (drop) or write bytes twice.  The real thresholds (256 / 1024) are instances of T up
+/// to the stated bound on T.
+pub fn c12_buffer_data_conservation() {
+    use crate::proto::verif_h::SymBuf;
+    let mut fw: FramedWrite<Mock, SymBuf> = FramedWrite::new(Mock::new([0; EXP], 0, 0));
+    fw.encoder.buf = Cursor::new(BytesMut::with_capacity(64));
+    let t: usize = kani::any();
+    kani::assume(t >= 10 && t <= 16);
+    fw.encoder.chain_threshold = t;
+    fw.encoder.min_buffer_capacity = t + 9;
+    let len: usize = kani::any();
+    kani::assume(len <= 16);
+    let eos: bool = kani::any();
+    let mut d = frame::Data::new(frame::StreamId::from(1), SymBuf { off: 0, rem: len });
+    d.set_end_stream(eos);
+    assert!(fw.has_capacity());
+    fw.buffer(d.into()).unwrap();
+    let in_buf = buffered(&fw).len();
+    let chained = match &fw.encoder.next {
+        Some(Next::Data(f)) => f.payload().rem,
+        Some(Next::Continuation(_)) => panic!("continuation after DATA"),
+        None => 0,
+    };
+    assert!(in_buf + chained == 9 + len, "C12.write: bytes pending after buffer(DATA) != 9 + payload length (dropped or duplicated)");
+    assert!(in_buf >= 9, "frame head not in the write buffer");
+    assert!(!fw.encoder.is_empty(), "C12.write: encoder claims to be empty while a frame is pending - flush would drop it");
+    // the head in the buffer announces the full payload length
+    let b = buffered(&fw);
+    assert!(b[0] == 0 && b[1] == 0 && b[2] as usize == len && b[3] == 0 && b[4] == eos as u8, "DATA head");
+    // handed back for reclaim only when nothing is chained
+    assert!(fw.encoder.last_data_frame.is_some() == fw.encoder.next.is_none(), "reclaim slot vs chained frame");
+    kani::cover!(chained > 0 && in_buf > 9, "topped_up_and_chained");
+    kani::cover!(len + 9 == t, "len_plus_head_equals_threshold");
+    kani::cover!(fw.encoder.next.is_none(), "copied");
+    kani::cover!(true, "end");
+    std::mem::forget(fw);
+}
